@@ -20,7 +20,7 @@ impl LintPass for GarbageInputValueCheck {
                 if !garbage.is_empty() {
                     let mut ranges = Vec::new();
                     for reg in &garbage {
-                        let mut ranges_tmp = Cfg::error_ranges_for_first_usage(&node, reg);
+                        let mut ranges_tmp = cfg.error_ranges_for_first_usage(&node, reg);
                         ranges.append(&mut ranges_tmp);
                     }
                     for range in ranges {
@@ -41,7 +41,7 @@ impl LintPass for GarbageInputValueCheck {
                 if !garbage.is_empty() {
                     let mut ranges = Vec::new();
                     for reg in &garbage {
-                        let mut ranges_tmp = Cfg::error_ranges_for_first_usage(&node, reg);
+                        let mut ranges_tmp = cfg.error_ranges_for_first_usage(&node, reg);
                         ranges.append(&mut ranges_tmp);
                     }
                     for range in ranges {
